@@ -29,6 +29,22 @@ partial def runSegment (p : Prog) (fuel : Nat) (w : World) (t : Thread) : SegOut
   | .done v => .done v w
   | .stuck why => .stuck why
 
+/-- The second segmentation: a segment starts WITH the thread's pending synchronisation operation and
+continues through the local steps after it, stopping just before the next synchronisation operation.
+For data-race-free programs both segmentations yield the same outcomes; when the emitted program has
+a race on a heap cell (e.g. a store the Go program orders before a `go` statement's argument is
+read), the two place the unsynchronised access on different sides of the other thread's operations,
+so the union of both outcome sets exposes it. -/
+partial def runSegmentB (p : Prog) (fuel : Nat) (w : World) (t : Thread) (first : Bool) (spawn : Option Thread) : SegOut :=
+  if fuel == 0 then .fuel else
+  match step p w t with
+  | .next t' w' sp sync =>
+    if sync && !first then .sync t w spawn
+    else runSegmentB p (fuel - 1) w' t' false (if sync then sp else spawn)
+  | .blocked => if first then .blocked else .sync t w spawn
+  | .done v => .done v w
+  | .stuck why => .stuck why
+
 structure ExpState where
   visited : Std.HashSet UInt64 := {}
   outcomes : List String := []
@@ -39,7 +55,7 @@ structure ExpState where
 def ExpState.add (s : ExpState) (o : String) : ExpState :=
   if s.outcomes.contains o then s else { s with outcomes := o :: s.outcomes }
 
-partial def explore (p : Prog) (maxStates segFuel : Nat) (w : World) (threads : Array (Option Thread)) (st : ExpState) : ExpState :=
+partial def explore (p : Prog) (modeB : Bool) (maxStates segFuel : Nat) (w : World) (threads : Array (Option Thread)) (st : ExpState) : ExpState :=
   if st.states ≥ maxStates then { st with truncated := true } else
   let key := hash (toString (repr (w.heap, threads)))
   if st.visited.contains key then st else
@@ -49,14 +65,14 @@ partial def explore (p : Prog) (maxStates segFuel : Nat) (w : World) (threads : 
     let (st, moved, live) := acc
     match threads[i]? with
     | some (some t) =>
-      match runSegment p segFuel w t with
+      match (if modeB then runSegmentB p segFuel w t true none else runSegment p segFuel w t) with
       | .sync t' w' sp =>
         let ths := threads.set! i (some t')
         let ths := match sp with | some nt => ths.push (some nt) | none => ths
-        (explore p maxStates segFuel w' ths st, true, true)
+        (explore p modeB maxStates segFuel w' ths st, true, true)
       | .done v w' =>
         if i == 0 then (st.add ("value " ++ showVal w' 6 v), true, true)
-        else (explore p maxStates segFuel w' (threads.set! i none) st, true, true)
+        else (explore p modeB maxStates segFuel w' (threads.set! i none) st, true, true)
       | .blocked => (st, moved, true)
       | .stuck why => (st.add ("stuck " ++ why), true, true)
       | .fuel => (st.add "fuel", true, true)
@@ -68,6 +84,9 @@ partial def explore (p : Prog) (maxStates segFuel : Nat) (w : World) (threads : 
 def exploreCall (p : Prog) (maxStates segFuel : Nat) (fn : String) (args : List Val) : ExpState :=
   let call : Ctl := if args.isEmpty then .eval (.app (.gvar fn) [.lit .unit]) [] else .eval (.gvar fn) []
   let k : List Frame := if args.isEmpty then [] else [.funK args]
-  explore p maxStates segFuel {} #[some { ctl := call, k := k }] {}
+  let a := explore p false maxStates segFuel {} #[some { ctl := call, k := k }] {}
+  let b := explore p true maxStates segFuel {} #[some { ctl := call, k := k }] {}
+  { a with outcomes := b.outcomes.foldl (fun acc o => if acc.contains o then acc else o :: acc) a.outcomes,
+           states := a.states + b.states, truncated := a.truncated || b.truncated }
 
 end GooseVerif.GL
